@@ -883,6 +883,7 @@ func (ts *Service) handleUpdateTask(w http.ResponseWriter, r *http.Request) {
 		updated.ID = task.ID
 	}
 
+	moveAssociation := false
 	if task.TemplateID != "" || updated.TemplateID != "" {
 		templateID := task.TemplateID
 		if templateID == "" {
@@ -893,18 +894,9 @@ func (ts *Service) handleUpdateTask(w http.ResponseWriter, r *http.Request) {
 			httpd.HttpError(w, fmt.Sprintf("unknown template %s: err: %s", task.TemplateID, err), true, http.StatusBadRequest)
 			return
 		}
-		if original.ID != updated.ID || original.TemplateID != updated.TemplateID {
-			if original.TemplateID != "" {
-				if err := ts.templates.DisassociateTask(original.TemplateID, original.ID); err != nil {
-					httpd.HttpError(w, fmt.Sprintf("failed to disassociate task with template: %s", err), true, http.StatusBadRequest)
-					return
-				}
-			}
-			if err := ts.templates.AssociateTask(templateID, updated.ID); err != nil {
-				httpd.HttpError(w, fmt.Sprintf("failed to associate task with template: %s", err), true, http.StatusBadRequest)
-				return
-			}
-		}
+		// The association follows the task: it moves when the task ID or the template changes.
+		// It is moved only after the new definition has been stored (see below).
+		moveAssociation = original.ID != updated.ID || original.TemplateID != templateID
 		updated.Type = template.Type
 		updated.TICKscript = template.TICKscript
 		updated.TemplateID = templateID
@@ -1012,6 +1004,23 @@ func (ts *Service) handleUpdateTask(w http.ResponseWriter, r *http.Request) {
 		updated.LastEnabled = now
 	}
 
+	// Move the template association once the new definition is stored.
+	moveAssociationNow := func() {
+		if !moveAssociation {
+			return
+		}
+		if original.TemplateID != "" {
+			if err := ts.templates.DisassociateTask(original.TemplateID, original.ID); err != nil {
+				ts.diag.Error("failed to disassociate task from template", err,
+					keyvalue.KV("template", original.TemplateID), keyvalue.KV("task", original.ID))
+			}
+		}
+		if err := ts.templates.AssociateTask(updated.TemplateID, updated.ID); err != nil {
+			ts.diag.Error("failed to associate task with template", err,
+				keyvalue.KV("template", updated.TemplateID), keyvalue.KV("task", updated.ID))
+		}
+	}
+
 	if original.ID != updated.ID {
 		// Task ID changed delete and re-create.
 		if err := ts.tasks.Create(updated); err != nil {
@@ -1026,6 +1035,7 @@ func (ts *Service) handleUpdateTask(w http.ResponseWriter, r *http.Request) {
 				keyvalue.KV("newID", updated.ID),
 			)
 		}
+		moveAssociationNow()
 		if original.Status == Enabled && updated.Status == Enabled {
 			// Stop task and start it under new name
 			ts.stopTask(original.ID)
@@ -1039,6 +1049,7 @@ func (ts *Service) handleUpdateTask(w http.ResponseWriter, r *http.Request) {
 			httpd.HttpError(w, fmt.Sprintf("failed to replace task definition: %s", err.Error()), true, http.StatusInternalServerError)
 			return
 		}
+		moveAssociationNow()
 	}
 
 	if statusChanged {
